@@ -50,7 +50,43 @@ pub fn digest(args: &Args) {
             Err(e) => (json!({"res": "err", "span": e.span().map(|s| vec![s.start, s.end]), "msg": e.message()}), json!({"res": "err"})),
         }))
         .unwrap_or((json!({"res": "panic"}), json!({"res": "panic"})));
-        writeln!(out, "{}", json!({"id": r["id"], "d_edit": h(&edit), "d_parse": d_parse, "d_toml_sorted": h(&toml_r.0), "d_toml_order": h(&toml_r.1),
+        // ORDER judged against a reference: the keys of the root toml::Table after parsing, and after
+        // remove(second key) / insert(new key) / re-insert(first key), compared with an insertion-ordered and a
+        // sorted reference list computed here
+        let order_law = catch_unwind(AssertUnwindSafe(|| {
+            let (Ok(t), Ok(d)) = (toml::from_str::<toml::Table>(&text), toml_edit::DocumentMut::from_str(&text)) else { return "none".to_string() };
+            let doc_order: Vec<String> = d.as_table().iter().map(|(k, _)| k.to_string()).collect();
+            let classify = |got: &Vec<String>, ins: &Vec<String>| {
+                let mut so = ins.clone();
+                so.sort();
+                match (got == ins, got == &so) {
+                    (true, true) => "both",
+                    (true, false) => "insertion",
+                    (false, true) => "sorted",
+                    (false, false) => "other",
+                }
+            };
+            let parsed: Vec<String> = t.keys().cloned().collect();
+            let a = classify(&parsed, &doc_order);
+            // a small history on the map
+            let mut t2 = t.clone();
+            let mut reference = doc_order.clone();
+            if reference.len() >= 3 {
+                let k = reference[1].clone();
+                t2.remove(&k);
+                reference.remove(1);
+            }
+            t2.insert("~new".to_string(), toml::Value::Integer(1));
+            reference.push("~new".to_string());
+            if let Some(k0) = reference.first().cloned() {
+                t2.insert(k0, toml::Value::Integer(2)); // existing key: keeps its place
+            }
+            let after: Vec<String> = t2.keys().cloned().collect();
+            let b = classify(&after, &reference);
+            format!("{a}/{b}")
+        }))
+        .unwrap_or("panic".to_string());
+        writeln!(out, "{}", json!({"id": r["id"], "order_law": order_law, "d_edit": h(&edit), "d_parse": d_parse, "d_toml_sorted": h(&toml_r.0), "d_toml_order": h(&toml_r.1),
                                    "accepted": edit["res"] == "ok"})).unwrap();
     }
 }
